@@ -106,6 +106,8 @@ BASES = [
     base("http", "example.com", segs=["app"], frag="/route/X"),                       # routing fragments (kept by normalize_url)
     base("https", "example.com", frag="!/users/John"),
     base("http", "example.com", segs=["a\u00a0b", "c\u3000"], items=[("k", "v\u2003w")]),     # raw unicode whitespace inside components (escaped in the canonical form)
+    base("http", "example.com", segs=["go"], items=[("l", "en"), ("url", "http://target.com/page")]),      # the redirect parameter is not the first redirect-like item
+    base("http", "example.com", segs=["login"], items=[("next", "/home")]),                                # a relative redirect target
     base("http", "co.uk", segs=["about"]),                                             # a host that is itself a public suffix
     base("http", "example.com", segs=["p"], items=[("tag", "b"), ("tag", "a"), ("tag", None)]),     # one key, several values: the order of items is irrelevant
     base("http", "example.com", user="z\u200bw", segs=["a\u200bb", "\u00ad"], items=[("k", "\ufeffv")], frag="x\u2060y"),      # invisible (format) characters are not control characters
@@ -253,6 +255,10 @@ def _c15():
             t = "http://h%d.com/r?url=%s" % (i, quote(t, safe=""))
         return t
     out += [nest(n) for n in range(1, 5)] + [nest(n, "/rel") for n in range(1, 4)]
+    # the usable parameter is not the first redirect-like one; leading blanks / control characters in front of the protocol
+    out += ["http://a.com/out?l=en&url=http%3A%2F%2Fb.com", "https://www.google.com/url?sa=D&q=http%3A%2F%2Fb.com%2Fx", "http://a.com/p?q=search&url=http://b.com/y",
+            "http://a.com/?u=//&next=/home", "http://a.com/?url=http://b.com&url=http://c.com", " http://a.com/login?next=/home", "\x00http://a.com/login?next=/home",
+            "\t//a.com/r?u=/x", "  a.com/login?next=/home", "\u00a0http://a.com/r?url=/x#f"]
     # self-referential / growing shapes
     out += ["http://a.com/?u=/?u=/", "http://a.com/r?url=%2Fr%3Furl%3D%252Fr", "http://a&u=/b", "http://a.com&url=%2Fx", "http://a.com/?next=/?next=/x", "/?u=/x", "/x?u=/x"]
     # AMP / Marfeel caches with empty and non-empty tails
